@@ -175,7 +175,7 @@ def tsSegPred (t : Int) (s : Seg) : Bool :=
   | some r => decide (r.ts > t)
 
 theorem findSegIdxByTs_eq (segs : List Seg) (t : Int) :
-    findSegIdxByTs segs t = (searchIdx segs (tsSegPred t), false) := by
+    findSegIdxByTs segs t false = (searchIdx segs (tsSegPred t), false) := by
   unfold findSegIdxByTs
   rw [goSearchErr_spec]
   · unfold searchIdx
@@ -187,6 +187,34 @@ theorem findSegIdxByTs_eq (segs : List Seg) (t : Int) :
       simp only [tsSegPred]
       cases s.recs.head? <;>
         simp [Gen.Subscribe.tsEmptySegNoError, Gen.Log.findSegmentTsCmp, Cmp.evalInt]
+  · intro i hi
+    rw [List.getElem?_eq_getElem hi]
+    simp only
+    cases segs[i].recs.head? <;> simp [Gen.Subscribe.tsEmptySegNoError]
+
+/-- The inclusive search (`>= t`) is the exclusive one for `t - 1`. -/
+theorem findSegIdxByTs_incl_eq (segs : List Seg) (t : Int) :
+    findSegIdxByTs segs t true = (searchIdx segs (tsSegPred (t - 1)), false) := by
+  unfold findSegIdxByTs
+  rw [goSearchErr_spec]
+  · unfold searchIdx
+    congr 2
+    funext i
+    cases hi : segs[i]? with
+    | none => rfl
+    | some s =>
+      simp only [tsSegPred]
+      cases hh : s.recs.head? with
+      | none => simp [Gen.Subscribe.tsEmptySegNoError]
+      | some r =>
+        simp only [Gen.Log.findSegmentTsCmp, Cmp.evalInt, Bool.true_and, Option.getD_some]
+        by_cases c : r.ts = t
+        · simp [c]; omega
+        · by_cases c2 : r.ts > t
+          · have : r.ts > t - 1 := by omega
+            simp [c, c2, this]
+          · have : ¬ r.ts > t - 1 := by omega
+            simp [c, c2, this]
   · intro i hi
     rw [List.getElem?_eq_getElem hi]
     simp only
@@ -358,18 +386,15 @@ theorem end_char {l : CLog} (h : InvC l) {t : Int} (hall : ∀ a ∈ l.abs, a.ts
   have := ltLastNext h r hr
   omega
 
-/-- `EarliestOffsetAfterTimestamp` splits the log at `t`, provided a segment whose first record
-has timestamp exactly `t` is not preceded by another record with that timestamp. -/
-theorem earliestAfterTs_spec (l : CLog) (t : Int) (h : InvC l) (hm : TsOrd l.abs)
-    (htie : ∀ s ∈ l.segs, ∀ r0, s.recs.head? = some r0 → r0.ts = t →
-      ∀ r ∈ l.abs, r.ts = t → r0.offset ≤ r.offset) :
+/-- `EarliestOffsetAfterTimestamp` (inclusive segment search) splits the log at `t`. -/
+theorem earliestAfterTs_spec (l : CLog) (t : Int) (h : InvC l) (hm : TsOrd l.abs) :
     ∃ s, earliestAfterTs l t = .ok s ∧ ∀ r ∈ l.abs, (s ≤ r.offset ↔ t ≤ r.ts) := by
   unfold earliestAfterTs
-  rw [findSegIdxByTs_eq]
+  rw [show Gen.Subscribe.tsEarliestInclusive = true from rfl, findSegIdxByTs_incl_eq]
   simp only [Bool.false_eq_true, if_false]
-  obtain ⟨idx, hi⟩ : ∃ idx, searchIdx l.segs (tsSegPred t) = idx := ⟨_, rfl⟩
+  obtain ⟨idx, hi⟩ : ∃ idx, searchIdx l.segs (tsSegPred (t - 1)) = idx := ⟨_, rfl⟩
   rw [hi]
-  rcases tsIdx_cases h hm t with ⟨hidx, x, post, hsegs, hq⟩ | ⟨init, y, rest, hsegs, hidx, hq, hrest⟩
+  rcases tsIdx_cases h hm (t - 1) with ⟨hidx, x, post, hsegs, hq⟩ | ⟨init, y, rest, hsegs, hidx, hq, hrest⟩
   · rw [hi] at hidx
     subst hidx
     have hxm : x ∈ l.segs := by simp [hsegs]
@@ -460,16 +485,10 @@ theorem earliestAfterTs_spec (l : CLog) (t : Int) (h : InvC l) (hm : TsOrd l.abs
       refine start_char h.sorted hm (by simp [e]) hr ?_
       intro a ha hlt
       have hs := h.sorted
-      have ha0 := ha
       rw [e] at ha hs
       rcases List.mem_append.mp (below_mem hs ha hlt) with ha | ha
       · have h1 := hinit a ha
-        rcases Int.lt_or_le a.ts t with h2 | h2
-        · exact h2
-        · have hat : a.ts = t := by omega
-          have hft' : f.ts = t := by omega
-          have := htie y hym f (by simp [hyf]) hft' a ha0 hat
-          omega
+        omega
       · exact hrp a ha
 
 /-- From a segment on which the segment predicate holds, every record is after `t`. -/
@@ -1166,85 +1185,27 @@ theorem create_reverse' (l : CLog) (req : Req) (start stop : Int) (h : InvC l)
   | true => exact ⟨_, _, rfl, Or.inl rfl⟩
   | false => exact ⟨_, _, rfl, Or.inr rfl⟩
 
-/-- The tie condition of `earliestAfterTs_spec` is also necessary. -/
-theorem earliestAfterTs_tie_needed (l : CLog) (t : Int) (h : InvC l) (hm : TsOrd l.abs)
-    (hres : ∃ s, earliestAfterTs l t = .ok s ∧ ∀ r ∈ l.abs, (s ≤ r.offset ↔ t ≤ r.ts)) :
-    ∀ s ∈ l.segs, ∀ r0, s.recs.head? = some r0 → r0.ts = t →
-      ∀ r ∈ l.abs, r.ts = t → r0.offset ≤ r.offset := by
-  intro sg hsg r0 h0 hr0t r hr hrt
-  obtain ⟨s, hs, hall⟩ := hres
-  have hsr : s ≤ r.offset := (hall r hr).mpr (by omega)
-  have hr0m : r0 ∈ sg.recs := List.mem_of_head? h0
-  have hr0a : r0 ∈ l.abs := List.mem_flatMap.mpr ⟨sg, hsg, hr0m⟩
-  -- the lookup resolves at or after the first record of every segment starting at or before `t`
-  suffices hle : r0.offset ≤ s by omega
-  unfold earliestAfterTs at hs
-  rw [findSegIdxByTs_eq] at hs
-  simp only [Bool.false_eq_true, if_false] at hs
-  obtain ⟨idx, hi⟩ : ∃ idx, searchIdx l.segs (tsSegPred t) = idx := ⟨_, rfl⟩
-  rw [hi] at hs
-  rcases tsIdx_cases h hm t with ⟨hidx, x, post, hsegs, hq⟩ | ⟨init, y, rest, hsegs, hidx, hq, hrest⟩
-  · exfalso
-    have := rest_after h hm (pre := []) hsegs hq r0 (by simpa [abs, hsegs] using hr0a)
-    omega
-  · rw [hi] at hidx
-    subst hidx
-    obtain ⟨f, fs, hyf, hft⟩ := tsSegPred_false hq
-    have hym : y ∈ l.segs := by simp [hsegs]
-    have hfa : f ∈ l.abs := List.mem_flatMap.mpr ⟨y, hym, by simp [hyf]⟩
-    -- `sg` is `y` or an earlier segment
-    have hsg' : sg ∈ init ∨ sg = y := by
-      rw [hsegs] at hsg
-      rcases List.mem_append.mp hsg with hsg | hsg
-      · exact Or.inl hsg
-      · rcases List.mem_cons.mp hsg with hsg | hsg
-        · exact Or.inr hsg
-        · exfalso
-          rcases hrest with hrest | ⟨x, post, hrest, hqx⟩
-          · subst hrest; cases hsg
-          · subst hrest
-            have := rest_after h hm (pre := init ++ [y]) (by simp [hsegs]) hqx r0
-              (List.mem_flatMap.mpr ⟨sg, hsg, hr0m⟩)
-            omega
-    have hr0f : r0.offset ≤ f.offset ∧ r0.ts ≤ f.ts := by
-      rcases hsg' with hsg' | hsg'
-      · have := init_before h hm hsegs hyf r0 (List.mem_flatMap.mpr ⟨sg, hsg', hr0m⟩)
-        omega
-      · subst hsg'
-        rw [hyf] at h0
-        simp only [List.head?_cons, Option.some.injEq] at h0
-        subst h0
-        exact ⟨Int.le_refl _, Int.le_refl _⟩
-    have hfe : findEntryByTs y t = some f := by
-      rcases findEntryByTs_cases (segTsOrd h hm hym) t with ⟨hally, _⟩ | ⟨rp, r', rq, hx, hr', hrp, hfe⟩
-      · have := hally f (by simp [hyf]); omega
-      · cases rp with
-        | nil =>
-          rw [hyf] at hx
-          simp only [List.nil_append, List.cons.injEq] at hx
-          rw [hfe, hx.1]
-        | cons p rp' =>
-          rw [hyf] at hx
-          simp only [List.cons_append, List.cons.injEq] at hx
-          have := hrp p (by simp)
-          rw [← hx.1] at this
-          omega
-    simp [hsegs, hfe] at hs
-    omega
+/-! ### Witnesses: the pre-fix timestamp lookup, and a start above the HW -/
 
-/-! ### Strictly increasing timestamps rule out ties -/
-
-theorem tie_of_strict {l : CLog} (hstrict : l.abs.Pairwise (fun a b => a.ts < b.ts)) (t : Int) :
-    ∀ s ∈ l.segs, ∀ r0, s.recs.head? = some r0 → r0.ts = t →
-      ∀ r ∈ l.abs, r.ts = t → r0.offset ≤ r.offset := by
-  intro s hs r0 h0 ht r hr hrt
-  have hr0 : r0 ∈ l.abs := List.mem_flatMap.mpr ⟨s, hs, List.mem_of_head? h0⟩
-  rcases pairwise_mem_cases hstrict hr0 hr with rfl | h1 | h1
-  · exact Int.le_refl _
-  · omega
-  · omega
-
-/-! ### Witnesses for the two statements that do not hold -/
+/-- The lookup of `EarliestOffsetAfterTimestamp` before the fix: exclusive segment search. -/
+def earliestAfterTsExclusive (l : CLog) (ts : Int) : Res Int :=
+  let (idx, err) := findSegIdxByTs l.segs ts false
+  if err then .ok (lastNextOffset l.segs) else
+  let seg := if idx = 0 then l.segs[0]? else l.segs[idx - 1]?
+  match seg with
+  | none => .panic
+  | some seg =>
+    match findEntryByTs seg ts with
+    | some r => .ok r.offset
+    | none =>
+      if Gen.Subscribe.tsNextSegCmp.evalInt idx (l.segs.length - Gen.Subscribe.tsNextSegOff) then
+        match l.segs[idx]? with
+        | none => .panic
+        | some s2 => match findEntryByTs s2 ts with
+          | some r => .ok r.offset
+          | none =>
+            if Gen.Subscribe.tsNextSegOff = 0 then .ok (lastNextOffset l.segs) else .err "timestamp"
+      else .ok (lastNextOffset l.segs)
 
 namespace Witness
 
@@ -1260,21 +1221,16 @@ theorem tieLog_inv : InvC tieLog := by
 
 theorem tieLog_ts : TsOrd tieLog.abs := by decide
 
-theorem tieLog_eval : earliestAfterTs tieLog 5 = .ok 1 := by
-  simp [earliestAfterTs, findSegIdxByTs, goSearchErr, goSearchErrAux, tieLog, rec, findEntryByTs,
-    goSearch, goSearchAux, Gen.Subscribe.tsEmptySegNoError, Gen.Log.findSegmentTsCmp, Cmp.evalInt,
-    Gen.Log.findEntryTsCmp]
+theorem tieLog_eval : earliestAfterTsExclusive tieLog 5 = .ok 1 := by
+  simp [earliestAfterTsExclusive, findSegIdxByTs, goSearchErr, goSearchErrAux, tieLog, rec,
+    findEntryByTs, goSearch, goSearchAux, Gen.Subscribe.tsEmptySegNoError, Gen.Log.findSegmentTsCmp,
+    Cmp.evalInt, Gen.Log.findEntryTsCmp]
 
-/-- The start-timestamp lookup skips a message with the requested timestamp when the next
+/-- The pre-fix start-timestamp lookup skips a message with the requested timestamp when the next
 segment starts with the same timestamp. -/
-theorem start_ts_witness : ∃ (l : CLog) (t : Int), InvC l ∧ TsOrd l.abs ∧
-    ¬ ∃ s, earliestAfterTs l t = .ok s ∧ ∀ r ∈ l.abs, (s ≤ r.offset ↔ t ≤ r.ts) := by
-  refine ⟨tieLog, 5, tieLog_inv, tieLog_ts, ?_⟩
-  rintro ⟨s, hs, hall⟩
-  rw [tieLog_eval] at hs
-  cases hs
-  have := (hall (rec 0 5) (by decide)).mpr (by decide)
-  exact absurd this (by decide)
+theorem old_lookup_witness : ∃ (l : CLog) (t : Int), InvC l ∧ TsOrd l.abs ∧
+    ∃ s, earliestAfterTsExclusive l t = .ok s ∧ ∃ r ∈ l.abs, t ≤ r.ts ∧ r.offset < s :=
+  ⟨tieLog, 5, tieLog_inv, tieLog_ts, 1, tieLog_eval, rec 0 5, by decide, by decide, by decide⟩
 
 /-- Three messages, only the first committed. -/
 def lowLog (hw : Int) : CLog :=
